@@ -17,6 +17,7 @@ import (
 	"sort"
 	"sync"
 	"syscall"
+	"time"
 )
 
 // Step is one abstract action of a TLC-generated behaviour: {"a"|"t": name, args...}.
@@ -131,6 +132,7 @@ var (
 	OutFile  = flag.String("out", "", "ndjson trace output")
 	Workers  = flag.Int("workers", 8, "parallel child processes")
 	WorkDir  = flag.String("workdir", "", "scratch directory (default: temp)")
+	Stall    = flag.Int("stall", 40, "seconds without a recorded event after which a child process is killed")
 	child    = flag.String("child", "", "internal: run as child, comma separated part file")
 	childLo  = flag.Int("lo", 0, "internal")
 	childHi  = flag.Int("hi", 0, "internal")
@@ -239,8 +241,53 @@ func supervise(scs []Scenario) {
 				cmd.Stdout, cmd.Stderr = logf, logf
 				cmd.Env = append(os.Environ(), "VH_CHILD_LOG="+logPath)
 				cmd.SysProcAttr = &syscall.SysProcAttr{Setpgid: true}
-				err := cmd.Run()
+				err := cmd.Start()
+				stalled := false
+				if err == nil {
+					// watchdog: a child that records nothing for *Stall seconds is wedged (driver or code under test):
+					// dump its goroutines into its log and kill it
+					waitCh := make(chan error, 1)
+					go func() { waitCh <- cmd.Wait() }()
+					lastSize, lastChange := int64(-1), time.Now()
+				watch:
+					for {
+						select {
+						case err = <-waitCh:
+							break watch
+						case <-time.After(500 * time.Millisecond):
+							var sz int64
+							if fi, e := os.Stat(part); e == nil {
+								sz = fi.Size()
+							}
+							if sz != lastSize {
+								lastSize, lastChange = sz, time.Now()
+							} else if time.Since(lastChange) > time.Duration(*Stall)*time.Second {
+								stalled = true
+								cmd.Process.Signal(syscall.SIGQUIT)
+								time.Sleep(300 * time.Millisecond)
+								cmd.Process.Kill()
+								err = <-waitCh
+								break watch
+							}
+						}
+					}
+				}
 				got := readPart(part, scs)
+				if stalled && len(got) > 0 {
+					last := got[len(got)-1]
+					if last.Died {
+						// not an observation of the code under test: the scenario could not be completed
+						last.Died, last.Dead = false, true
+						last.Note = fmt.Sprintf("child recorded nothing for %d s and was killed (goroutine dump in %s)", *Stall, logPath)
+						if b, e := ioutil.ReadFile(logPath); e == nil {
+							ioutil.WriteFile(*OutFile+fmt.Sprintf(".stall%d.log", k), b, 0o644)
+							if len(b) > 6000 {
+								b = b[len(b)-6000:]
+							}
+							last.Note += "\n" + string(b)
+						}
+					}
+				}
 				mu.Lock()
 				done := 0
 				for _, t := range got {
@@ -302,7 +349,7 @@ func supervise(scs []Scenario) {
 // extra flags a driver defines are passed to children unchanged
 func passThrough() []string {
 	var out []string
-	skip := map[string]bool{"scenarios": true, "out": true, "workers": true, "workdir": true, "child": true, "lo": true, "hi": true}
+	skip := map[string]bool{"scenarios": true, "out": true, "workers": true, "workdir": true, "child": true, "lo": true, "hi": true, "stall": true}
 	flag.Visit(func(f *flag.Flag) {
 		if !skip[f.Name] {
 			out = append(out, "-"+f.Name+"="+f.Value.String())
